@@ -1,4 +1,369 @@
 package main
 
-// genExtra: further generated facts (routes, SQL, config tables) are added here.
-func genExtra(repo, out string) {}
+import (
+	"fmt"
+	"go/ast"
+	"go/token"
+	"path/filepath"
+	"strings"
+)
+
+// genExtra: facts for C15 (checked configuration paths, SQL splice sites), C16 (identity columns,
+// required fields), C19 (routes).
+func genExtra(repo, out string) {
+	genSQL(repo, out)
+	genRoutes(repo, out)
+	genConfig(repo, out)
+}
+
+// ---- C15: which configuration paths CheckUserInput checks -------------------------------------
+
+// substitute range variables by the ranged expression + "[]"
+func pathOf(e ast.Expr, env map[string]string) string {
+	s := src(e)
+	// longest variable names first is unnecessary here: names are distinct identifiers
+	for v, repl := range env {
+		if s == v {
+			return repl
+		}
+		if strings.HasPrefix(s, v+".") {
+			return repl + s[len(v):]
+		}
+		if strings.HasPrefix(s, v+"[") {
+			return repl + s[len(v):]
+		}
+	}
+	return s
+}
+
+func collectChecks(n ast.Node, env map[string]string, funcs map[string]*ast.FuncLit, depth int, out *[]string) {
+	ast.Inspect(n, func(m ast.Node) bool {
+		switch x := m.(type) {
+		case *ast.RangeStmt:
+			env2 := map[string]string{}
+			for k, v := range env {
+				env2[k] = v
+			}
+			if id, ok := x.Value.(*ast.Ident); ok && id.Name != "_" {
+				env2[id.Name] = pathOf(x.X, env) + "[]"
+			}
+			collectChecks(x.Body, env2, funcs, depth, out)
+			return false
+		case *ast.CallExpr:
+			if id, ok := x.Fun.(*ast.Ident); ok {
+				if id.Name == "check" && len(x.Args) == 2 {
+					*out = append(*out, pathOf(x.Args[1], env))
+					return false
+				}
+				// a local recursive helper: func(inputs []dig.Input) { for _, inp := range inputs {...; self(inp.Components)} }
+				if fl, ok := funcs[id.Name]; ok && len(x.Args) == 1 && depth < 2 {
+					p := fl.Type.Params.List[0].Names[0].Name
+					env2 := map[string]string{p: pathOf(x.Args[0], env)}
+					collectChecks(fl.Body, env2, funcs, depth+1, out)
+					return false
+				}
+			}
+		}
+		return true
+	})
+}
+
+type splice struct{ fn, format, arg string }
+
+func genSQL(repo, out string) {
+	var checks []string
+	if f := parse(repo, "shovel/config/config.go"); f != nil {
+		fn := findFunc(f, "", "CheckUserInput")
+		if fn == nil {
+			fail("config.CheckUserInput not found")
+		} else {
+			funcs := map[string]*ast.FuncLit{}
+			ast.Inspect(fn.Body, func(n ast.Node) bool {
+				if as, ok := n.(*ast.AssignStmt); ok && len(as.Lhs) == 1 && len(as.Rhs) == 1 {
+					if fl, ok := as.Rhs[0].(*ast.FuncLit); ok {
+						funcs[src(as.Lhs[0])] = fl
+					}
+				}
+				return true
+			})
+			// only the top-level statements (not the helper bodies themselves)
+			for _, st := range fn.Body.List {
+				if _, ok := st.(*ast.RangeStmt); ok {
+					collectChecks(st, map[string]string{}, funcs, 0, &checks)
+				}
+			}
+			if len(checks) == 0 {
+				fail("config.CheckUserInput: no check(...) calls recognised")
+			}
+		}
+	}
+	// ---- splice sites: non-constant strings that flow into SQL text
+	var splices []splice
+	sqlish := func(s string) bool {
+		l := strings.ToLower(s)
+		for _, k := range []string{"select ", "delete from", "insert into", "create table", "create unique index", "create index", "alter table", "set application_name", "pg_notify"} {
+			if strings.Contains(l, k) {
+				return true
+			}
+		}
+		return false
+	}
+	files := []string{"shovel/task.go", "dig/dig.go", "wpg/pg.go", "shovel/config/config.go", "shovel/web/web.go"}
+	for _, rel := range files {
+		f := parse(repo, rel)
+		if f == nil {
+			continue
+		}
+		for _, d := range f.Decls {
+			fd, ok := d.(*ast.FuncDecl)
+			if !ok || fd.Body == nil {
+				continue
+			}
+			name := fd.Name.Name
+			if fd.Recv != nil {
+				name = strings.TrimPrefix(src(fd.Recv.List[0].Type), "*") + "." + name
+			}
+			name = filepath.Base(filepath.Dir(rel)) + "." + name
+			// constants and variables holding SQL text inside this function
+			consts := map[string]string{}
+			ast.Inspect(fd.Body, func(n ast.Node) bool {
+				switch x := n.(type) {
+				case *ast.GenDecl:
+					for _, sp := range x.Specs {
+						if vs, ok := sp.(*ast.ValueSpec); ok && len(vs.Names) == 1 && len(vs.Values) == 1 {
+							if s, ok := strLit(vs.Values[0]); ok {
+								consts[vs.Names[0].Name] = s
+							}
+						}
+					}
+				case *ast.AssignStmt:
+					if len(x.Lhs) == 1 && len(x.Rhs) == 1 && x.Tok == token.DEFINE {
+						if s, ok := strLit(x.Rhs[0]); ok {
+							consts[src(x.Lhs[0])] = s
+						}
+					}
+				}
+				return true
+			})
+			builder := name == "wpg.Table.DDL" // builds SQL by concatenation
+			ast.Inspect(fd.Body, func(n ast.Node) bool {
+				switch x := n.(type) {
+				case *ast.CallExpr:
+					if src(x.Fun) != "fmt.Sprintf" || len(x.Args) < 2 {
+						return true
+					}
+					format, ok := strLit(x.Args[0])
+					if !ok {
+						format, ok = consts[src(x.Args[0])]
+					}
+					if !ok || !(sqlish(format) || builder) {
+						return true
+					}
+					for _, a := range x.Args[1:] {
+						splices = append(splices, splice{name, strings.Join(strings.Fields(format), " "), src(a)})
+					}
+				case *ast.AssignStmt:
+					if builder && x.Tok == token.ADD_ASSIGN && len(x.Rhs) == 1 {
+						if _, lit := strLit(x.Rhs[0]); !lit {
+							if c, ok := x.Rhs[0].(*ast.CallExpr); ok && src(c.Fun) == "fmt.Sprintf" {
+								return true // handled above
+							}
+							splices = append(splices, splice{name, "+=", src(x.Rhs[0])})
+						}
+					}
+				}
+				return true
+			})
+		}
+	}
+	if len(splices) == 0 {
+		fail("no SQL splice sites recognised")
+	}
+	// ---- which functions run a validator (entry points)
+	var validators [][2]string
+	for _, rel := range []string{"shovel/config/config.go", "shovel/web/web.go", "cmd/shovel/main.go"} {
+		f := parse(repo, rel)
+		if f == nil {
+			continue
+		}
+		for _, d := range f.Decls {
+			fd, ok := d.(*ast.FuncDecl)
+			if !ok || fd.Body == nil {
+				continue
+			}
+			name := fd.Name.Name
+			if fd.Recv != nil {
+				name = strings.TrimPrefix(src(fd.Recv.List[0].Type), "*") + "." + name
+			}
+			name = filepath.Base(filepath.Dir(rel)) + "." + name
+			seen := map[string]bool{}
+			ast.Inspect(fd.Body, func(n ast.Node) bool {
+				if c, ok := n.(*ast.CallExpr); ok {
+					fnn := src(c.Fun)
+					for _, v := range []string{"CheckUserInput", "ValidateFix", "wstrings.Safe"} {
+						if (fnn == v || strings.HasSuffix(fnn, "."+v)) && !seen[v] {
+							seen[v] = true
+							validators = append(validators, [2]string{name, v})
+						}
+					}
+				}
+				return true
+			})
+		}
+	}
+	var sb strings.Builder
+	sb.WriteString("/- GENERATED by harness/cmd/extract — do not edit. -/\nnamespace Shovel.Gen.Sql\n\n")
+	sb.WriteString("/-- (function, validator it calls) -/\ndef validators : List (String × String) := [\n")
+	for i, v := range validators {
+		fmt.Fprintf(&sb, "  (%s, %s)", leanStr(v[0]), leanStr(v[1]))
+		if i+1 < len(validators) {
+			sb.WriteString(",")
+		}
+		sb.WriteString("\n")
+	}
+	sb.WriteString("]\n\n")
+	sb.WriteString("/-- configuration paths passed to `check(...)` in config.CheckUserInput (`[]` = every element) -/\ndef checkedPaths : List String := [\n")
+	for i, c := range checks {
+		fmt.Fprintf(&sb, "  %s", leanStr(c))
+		if i+1 < len(checks) {
+			sb.WriteString(",")
+		}
+		sb.WriteString("\n")
+	}
+	sb.WriteString("]\n\n/-- every non-constant string spliced into SQL text: (function, format, argument expression) -/\ndef splices : List (String × String × String) := [\n")
+	for i, s := range splices {
+		fmt.Fprintf(&sb, "  (%s, %s, %s)", leanStr(s.fn), leanStr(s.format), leanStr(s.arg))
+		if i+1 < len(splices) {
+			sb.WriteString(",")
+		}
+		sb.WriteString("\n")
+	}
+	sb.WriteString("]\n\nend Shovel.Gen.Sql\n")
+	writeIfChanged(filepath.Join(out, "Sql.lean"), sb.String())
+}
+
+// ---- C19: routes ------------------------------------------------------------------------------
+
+func genRoutes(repo, out string) {
+	f := parse(repo, "cmd/shovel/main.go")
+	if f == nil {
+		return
+	}
+	type route struct {
+		path, handler string
+		authn        bool
+	}
+	var routes []route
+	ast.Inspect(f, func(n ast.Node) bool {
+		c, ok := n.(*ast.CallExpr)
+		if !ok {
+			return true
+		}
+		fn := src(c.Fun)
+		if (fn != "mux.Handle" && fn != "mux.HandleFunc") || len(c.Args) != 2 {
+			return true
+		}
+		p, ok := strLit(c.Args[0])
+		if !ok {
+			fail("routes: non-literal path %s", src(c.Args[0]))
+			return true
+		}
+		h := src(c.Args[1])
+		r := route{path: p, handler: h}
+		if inner, ok := c.Args[1].(*ast.CallExpr); ok && strings.HasSuffix(src(inner.Fun), ".Authn") && len(inner.Args) == 1 {
+			r.authn = true
+			r.handler = src(inner.Args[0])
+		}
+		if _, ok := c.Args[1].(*ast.FuncLit); ok {
+			r.handler = "func-literal"
+		}
+		routes = append(routes, r)
+		return true
+	})
+	if len(routes) == 0 {
+		fail("routes: none recognised")
+	}
+	var sb strings.Builder
+	sb.WriteString("/- GENERATED by harness/cmd/extract from cmd/shovel/main.go — do not edit. -/\nnamespace Shovel.Gen.Routes\n\n")
+	sb.WriteString("/-- (path, handler, registered through Authn) -/\ndef routes : List (String × String × Bool) := [\n")
+	for i, r := range routes {
+		fmt.Fprintf(&sb, "  (%s, %s, %v)", leanStr(r.path), leanStr(r.handler), r.authn)
+		if i+1 < len(routes) {
+			sb.WriteString(",")
+		}
+		sb.WriteString("\n")
+	}
+	sb.WriteString("]\n\nend Shovel.Gen.Routes\n")
+	writeIfChanged(filepath.Join(out, "Routes.lean"), sb.String())
+}
+
+// ---- C16: identity columns and required fields ---------------------------------------------------
+
+func genConfig(repo, out string) {
+	f := parse(repo, "shovel/config/config.go")
+	if f == nil {
+		return
+	}
+	var possible []string
+	if fn := findFunc(f, "", "AddUniqueIndex"); fn != nil {
+		ast.Inspect(fn.Body, func(n ast.Node) bool {
+			as, ok := n.(*ast.AssignStmt)
+			if !ok || len(as.Lhs) != 1 || src(as.Lhs[0]) != "possible" {
+				return true
+			}
+			if cl, ok := as.Rhs[0].(*ast.CompositeLit); ok {
+				for _, el := range cl.Elts {
+					if s, ok := strLit(el); ok {
+						possible = append(possible, s)
+					}
+				}
+			}
+			return true
+		})
+	}
+	if len(possible) == 0 {
+		fail("config.AddUniqueIndex: `possible` list not recognised")
+	}
+	type addc struct{ name, typ, guard string }
+	var adds []addc
+	if fn := findFunc(f, "Integration", "AddRequiredFields"); fn != nil {
+		var walk func(n ast.Node, guard string)
+		walk = func(n ast.Node, guard string) {
+			switch x := n.(type) {
+			case *ast.BlockStmt:
+				for _, st := range x.List {
+					walk(st, guard)
+				}
+			case *ast.ExprStmt:
+				if c, ok := x.X.(*ast.CallExpr); ok && src(c.Fun) == "add" && len(c.Args) == 2 {
+					a, ok1 := strLit(c.Args[0])
+					b, ok2 := strLit(c.Args[1])
+					if ok1 && ok2 {
+						adds = append(adds, addc{a, b, guard})
+					}
+				}
+			case *ast.IfStmt:
+				walk(x.Body, strings.TrimSpace(guard+" if:"+src(x.Cond)))
+			case *ast.RangeStmt:
+				walk(x.Body, strings.TrimSpace(guard+" range:"+src(x.X)))
+			}
+		}
+		walk(fn.Body, "")
+	}
+	if len(adds) == 0 {
+		fail("config.AddRequiredFields: add(...) calls not recognised")
+	}
+	var sb strings.Builder
+	sb.WriteString("/- GENERATED by harness/cmd/extract from shovel/config/config.go — do not edit. -/\nnamespace Shovel.Gen.Config\n\n")
+	sb.WriteString("/-- candidate columns of the generated unique index, in order -/\ndef possible : List String := " + leanList(possible) + "\n\n")
+	sb.WriteString("/-- `add(name, type)` calls of AddRequiredFields with their guards -/\ndef required : List (String × String × String) := [\n")
+	for i, a := range adds {
+		fmt.Fprintf(&sb, "  (%s, %s, %s)", leanStr(a.name), leanStr(a.typ), leanStr(a.guard))
+		if i+1 < len(adds) {
+			sb.WriteString(",")
+		}
+		sb.WriteString("\n")
+	}
+	sb.WriteString("]\n\nend Shovel.Gen.Config\n")
+	writeIfChanged(filepath.Join(out, "Config.lean"), sb.String())
+}
